@@ -373,6 +373,69 @@ func vC11TGen(r *rand.Rand, caseNo int) *vC11TScenario {
 	return sc
 }
 
+// corpus/C11/tcp.json: [{"note":..., "frames":[{"miss":true,"delay":2529,"big":false}], "chunks":[[t_ms, bytes|-1 = the rest]],
+// "eof_at":-1, "stall_at":-1}]: scenarios replayed first on every run (minimal failing inputs of caught changes)
+type vC11TCorpusEntry struct {
+	Note   string `json:"note"`
+	Frames []struct {
+		Miss  bool `json:"miss"`
+		Delay int  `json:"delay"`
+		Big   bool `json:"big"`
+	} `json:"frames"`
+	Chunks  [][2]int `json:"chunks"`
+	EOFAt   int      `json:"eof_at"`
+	StallAt int      `json:"stall_at"`
+}
+
+func vC11TCorpus() []*vC11TScenario {
+	dir := os.Getenv("VERIF_CORPUS")
+	if dir == "" {
+		return nil
+	}
+	b, err := os.ReadFile(dir + "/tcp.json")
+	if err != nil {
+		return nil
+	}
+	var es []vC11TCorpusEntry
+	if json.Unmarshal(b, &es) != nil {
+		return nil
+	}
+	var out []*vC11TScenario
+	for _, e := range es {
+		sc := &vC11TScenario{mode: "tcp-corpus", eofAt: e.EOFAt, stallAt: e.StallAt}
+		tot := 0
+		for i, fe := range e.Frames {
+			fr := &vC11TFrame{miss: fe.Miss, delay: fe.Delay, big: fe.Big}
+			m := new(dns.Msg)
+			switch {
+			case fe.Miss && fe.Big:
+				m.SetQuestion(fmt.Sprintf("mc-%d.c11.example.", i), dns.TypeTXT)
+			case fe.Miss:
+				m.SetQuestion(fmt.Sprintf("mc-%d.c11.example.", i), dns.TypeA)
+			default:
+				m.SetQuestion("w.c11.example.", dns.TypeA)
+			}
+			m.Id = uint16(i + 1)
+			m.SetEdns0(4096, false)
+			fr.raw, _ = m.Pack()
+			tot += 2 + len(fr.raw)
+			sc.frames = append(sc.frames, fr)
+		}
+		for _, ch := range e.Chunks {
+			n := ch[1]
+			if n < 0 || n > tot {
+				n = tot
+			}
+			tot -= n
+			sc.chunks = append(sc.chunks, vC11TChunk{ch[0], n})
+		}
+		if len(sc.frames) > 0 && len(sc.chunks) > 0 {
+			out = append(out, sc)
+		}
+	}
+	return out
+}
+
 func TestVerifC11Tcp(t *testing.T) {
 	out := os.Getenv("VERIF_OUT")
 	if out == "" {
@@ -387,8 +450,14 @@ func TestVerifC11Tcp(t *testing.T) {
 	n := vC11SEnvInt("VERIF_N", 100)
 	r := rand.New(rand.NewSource(seed*49979687 + 29))
 
+	corpus := vC11TCorpus()
 	for c := 0; c < n; c++ {
-		sc := vC11TGen(r, c)
+		var sc *vC11TScenario
+		if c < len(corpus) {
+			sc = corpus[c]
+		} else {
+			sc = vC11TGen(r, c)
+		}
 		cur := sc
 		// The pipeline is built per case and outside the bubble (handlers start janitor
 		// goroutines that never exit; nothing pooled may cross from one bubble to the next).
